@@ -263,6 +263,9 @@ func (s *slice) Swap(i, j int) {
 }
 
 func keepIf(fm *Frame, f Callable, inputs Inputs) error {
+	if f == nil {
+		return errs.BadValue{What: "function", Valid: "function", Actual: "$nil"}
+	}
 	var err error
 	inputs(func(v any) {
 		if err != nil {
